@@ -175,6 +175,8 @@ func topologyScenarios(tier string) []clustermc.Scenario {
 		{"req-zone", &schedv2alpha2.TopologyConstraint{Topology: "t", RequiredTopologyLevel: lblZone}},
 		{"req-zone-pref-rack", &schedv2alpha2.TopologyConstraint{Topology: "t", RequiredTopologyLevel: lblZone, PreferredTopologyLevel: lblRack}},
 		{"pref-rack", &schedv2alpha2.TopologyConstraint{Topology: "t", PreferredTopologyLevel: lblRack}},
+		// nothing validates the order of the two levels: a preferred level COARSER than the required one
+		{"req-rack-pref-zone", &schedv2alpha2.TopologyConstraint{Topology: "t", RequiredTopologyLevel: lblRack, PreferredTopologyLevel: lblZone}},
 		{"req-rack-unknown-topology", &schedv2alpha2.TopologyConstraint{Topology: "nope", RequiredTopologyLevel: lblRack}},
 		{"req-host-1level-topology", &schedv2alpha2.TopologyConstraint{Topology: "hostonly", RequiredTopologyLevel: "kubernetes.io/hostname"}},
 	}
